@@ -113,6 +113,9 @@ GOOD = {'amr': ['(a / alpha :ARG0 (b / beta))', '# ::id g\n(c / chapter :mod 7)'
 BAD = {'amr': ['(a / alpha :foo (b / beta))', '(a / alpha :ARG0 (b / beta :ARG10 c))', '(a / x :ARG0-of-of b)', '# ::id bad\n(a / alpha :mod-of-of 7 :bar 8)', '(a / a :ARG0 (b / b :snt (c / c)))'],
        'file': ['(a / alpha :foo (b / beta))', '(a / a :ARG2 b)', '(a / a :op x)'],
        'default': []}
+# a graph whose only error is a graph-level one (reported without a triple): the empty graph
+for _k in BAD:
+    BAD[_k].append('()')
 
 
 def check_C16(c):
